@@ -181,7 +181,8 @@ func (k *KVStore) NewEntry() storage.Entry {
 
 // PutRaw sets the raw value for the given key.
 func (k *KVStore) PutRaw(hkey uint64, value []byte) error {
-	if uint64(len(value)) > k.tableSize {
+	// A table accepts an entry only if it is smaller than the table.
+	if uint64(len(value)) >= k.tableSize {
 		return storage.ErrEntryTooLarge
 	}
 
@@ -216,7 +217,8 @@ func (k *KVStore) PutRaw(hkey uint64, value []byte) error {
 
 // Put sets the value for the given key. It overwrites any previous value for that key
 func (k *KVStore) Put(hkey uint64, value storage.Entry) error {
-	if requiredSizeForAnEntry(value) > k.tableSize {
+	// A table accepts an entry only if it is smaller than the table.
+	if requiredSizeForAnEntry(value) >= k.tableSize {
 		return storage.ErrEntryTooLarge
 	}
 
